@@ -53,7 +53,7 @@ through the element loop -/
 
 def envCopy : Env :=
   { tys := #[ { kind := .basic, str := "string", name := "string" },
-              { kind := .other, str := "interface{}" },
+              { kind := .other, str := "interface{}", qstr := "interface{}" },
               { kind := .slice, str := "[]string", elem := 0 },
               { kind := .slice, str := "[]interface{}", elem := 1 } ],
     assignable := fun a b => a == b || (a == 0 && b == 1), convertible := fun _ _ => false,
